@@ -1,0 +1,41 @@
+//go:build verif
+
+// Contracts for package config (config decoding glue around mapstructure), checked by /verif/govc. Comment-only: no code.
+// What mapstructure itself does with the options is assumed; the contracts pin the options and the hooks we hand to it.
+package config
+
+// Strict decoding: unknown keys are errors, given fields are not zeroed (defaults stay), no weak typing; the placeholder
+// hook runs first.
+//@ func newDecoderConfig
+//@ props C17
+//@ ensures [strict-and-default-preserving] result != nil && result.ErrorUnused && !result.ZeroFields && !result.WeaklyTypedInput && result.TagName == "config" && result.Result == result0_arg
+//@ ghost result0_arg = result
+
+//@ func Decode
+//@ props C17
+//@ ensures [decoder-failure-is-an-error] imp(result_of(mapstructure.NewDecoder, 1) != nil, result != nil)
+//@ ensures [decode-failure-is-an-error] imp(calls(decoder.Decode) == 1 && result_of(decoder.Decode, 0) != nil, result != nil && cause(result) == cause(result_of(decoder.Decode, 0)))
+//@ at call decoder.Decode assert [the-given-configuration] arg(a0) == conf
+
+//@ func DecodeAndValidate
+//@ props C17
+//@ ensures [decode-errors-are-returned] imp(result_of(Decode, 0) != nil, result == result_of(Decode, 0))
+//@ ensures [decoded-values-are-validated] imp(result_of(Decode, 0) == nil, calls(Validate) == 1 && result == result_of(Validate, 0))
+//@ at call Decode assert arg(conf) == conf && arg(result) == result0
+//@ at call Validate assert [the-decoded-value] arg(a0) == result0
+
+// ${...} placeholders in string values: no placeholder leaves the value alone; a resolver failure fails the decoding.
+//@ func VariableInjectHook
+//@ props C17 C13
+//@ nilsafe
+//@ requires f != nil && t != nil
+//@ env [mapstructure-passes-the-type-of-the-data] imp(f.Kind() == reflect.String, typeis(data, string))
+//@ ensures [no-placeholder-leaves-the-value] imp(calls(confutil.ResolveCustomTags) == 1 && result_of(confutil.ResolveCustomTags, 1) == confutil.ErrNoTagsFound, result0 == data && result1 == nil)
+//@ ensures [unset-variable-or-missing-property-is-an-error] imp(calls(confutil.ResolveCustomTags) == 1 && result_of(confutil.ResolveCustomTags, 1) != nil && result_of(confutil.ResolveCustomTags, 1) != confutil.ErrNoTagsFound, result1 == result_of(confutil.ResolveCustomTags, 1))
+//@ ensures [resolved-value] imp(calls(confutil.ResolveCustomTags) == 1 && result_of(confutil.ResolveCustomTags, 1) == nil, result0 == result_of(confutil.ResolveCustomTags, 0) && result1 == nil)
+//@ at call confutil.ResolveCustomTags assert [the-string-value-and-its-target-type] arg(targetType) == t
+
+// The placeholder hook comes before every conversion hook, so that substituted text is converted like written text.
+//@ func DefaultHooks
+//@ props C17
+//@ ensures [placeholders-first] len(result) == 7 && result[0] == box(VariableInjectHook)
